@@ -318,7 +318,7 @@ Fixpoint channel_id_list (l : list msg) : outcome (list N) :=
                end
   end.
 
-Definition RDP_VERSION_5PLUS_WIRE : N := 524289.   (* Version::from(0x00080001) = RdpVersion5plus *)
+Definition RDP_VERSION_5PLUS_WIRE : N := 524292.   (* Version::from(0x00080004) = RdpVersion5plus (after the fix of defect #20) *)
 
 Definition gcc_server_data (cn : option msg * option msg) : outcome server_data :=
   match snd cn with
